@@ -190,4 +190,43 @@ def run(ctx, col, tier):
     sup = [n for n in own_nodes(p) if isinstance(n, ast.Call) and isinstance(n.func, ast.Attribute) and n.func.attr == "__init__"]
     bf = kwarg(sup[0], "bf") if sup else None
     col.check(bf is not None and const_int(bf) == 0, "R-CONST", p.qualname, p.loc(), "PointsToMST passes bf=0",
-              norm_src(bf) if bf is not None else "", "bf is not the constant 0", stmt="bf0")
+              norm_src(bf) if bf is not None else "", "bf is not the constant 0: PointsToMST would not build a minimum spanning tree",
+              stmt="bf0", definite=isinstance(bf, ast.Constant) and isinstance(bf.value, (int, float)))
+
+    # --- statements that carry the roles, matched three-way under one renaming
+    col.text_group("R-ROLES", q, d, [
+        ("pairwise Euclidean distances from coordinate differences", ["dis = np.linalg.norm(points.reshape((-1, 1, 3)) - points.reshape((1, -1, 3)), axis=2)"], "dist"),
+        ("no parent yet", ["pid = np.full(n, fill_value=-1)"], "pid-init"),
+        ("child counts start at 0", ["furcations = np.zeros(n, dtype=_any)"], "furc-init"),
+        ("only point 0 is connected at the start", ["conn[0] = True"], "conn0"),
+        ("n-1 attachments", ["for _ in range(n - 1): pass"], "n-1") if False else
+        ("the arg-min pair (parent, child) of the cost matrix", ["(i, j) = np.unravel_index(cost.argmin(), cost.shape)"], "argmin"),
+        ("the parent's child count grows", ["furcations[i] += 1"], "count"),
+        ("the new point records the parent", ["pid[j] = i"], "pid"),
+        ("its path length is the parent's plus the edge", ["acc[j] = acc[i] + dis[i, j]"], "acc"),
+        ("it becomes connected", ["conn[j] = True"], "conn"),
+        ("it can now act as parent of the unconnected points", ["mask[j, :] = conn"], "mask-row"),
+        ("it can no longer be attached as a child", ["mask[:, j] = True"], "mask-col"),
+        ("a saturated point is closed as parent", ["mask[i, :] = True"], "sat-row"),
+        ("... and as child", ["mask[:, i] = True"], "sat-col"),
+        ("a given soma is put first", ["points = np.concatenate([[soma], points])"], "soma-first"),
+        ("ids are 0..n-1", ["names.id: np.arange(n)"], "ids") if False else
+        ("the first point is typed as soma", ["dic[names.type][0] = self.types.soma"], "soma-type"),
+    ], fixed=("points", "soma", "names", "n"))
+    loops = [x for x in own_nodes(d) if isinstance(x, ast.For)]
+    main = [x for x in loops if any(isinstance(y, ast.Call) and (dotted(y.func) or "").endswith("unravel_index") for y in ast.walk(x))]
+    if len(main) == 1:
+        col.text("R-ROLES", q, d.loc(main[0]), "exactly n-1 attachments", main[0].iter, ["range(n - 1)", "range(1, n)"], stmt="n-1")
+    # PointsToMST forwards every option it accepts
+    p = repo.get_def(f"{MST}.PointsToMST.__init__")
+    sup = [x for x in own_nodes(p) if isinstance(x, ast.Call) and isinstance(x.func, ast.Attribute) and x.func.attr == "__init__"]
+    if len(sup) == 1:
+        used = {y.id for x in own_nodes(p) for y in ast.walk(x) if isinstance(y, ast.Name)} if False else {y.id for y in ast.walk(sup[0]) if isinstance(y, ast.Name)}
+        for prm in p.params[1:]:
+            if prm in ("k_furcations",):
+                continue
+            anywhere = any(isinstance(y, ast.Name) and y.id == prm and isinstance(y.ctx, ast.Load) for y in ast.walk(p.node))
+            col.check(prm in used or (prm == "kwargs" and any(k.arg is None for k in sup[0].keywords)), "R-CONST", p.qualname, p.loc(sup[0]),
+                      f"option `{prm}` is passed on to the balanced-tree constructor", "",
+                      f"PointsToMST accepts `{prm}` but does not pass it to super().__init__(...): the option silently has no effect "
+                      f"(the parent's default applies)", stmt=f"fwd:{prm}", definite=not anywhere or prm not in used)
